@@ -91,13 +91,13 @@ def tasks_for(run, module, prop, quick_depth=2, thorough_depth=3, lf_quick=0, lf
     for rec in recs:
         comp = len(rec["attrs"]) > 1
         if quick:
-            depth = 1 if comp else quick_depth
+            depth = (2 if prop in ("C03", "C04", "C05") else 1) if comp else quick_depth
         else:
             depth = thorough_depth if comp else quick_depth + 1
         tasks.append({"rec": rec, "depth": depth, "module": module, "prop": prop, "tier": run.tier,
                       "line_fault_depth": lf_quick if quick else lf_thorough,
                       "inits": 2 if quick else None,
-                      "max_states": 400 if quick else 4000})
+                      "max_states": 1500 if quick else 6000})
     return tasks
 
 
